@@ -22,7 +22,7 @@
         regenerate_previous_results (strictness, rule names, fungal multipliers)
     detection/sideloader/data_structures.py : Tool, SubRegionAnnotation, ProtoclusterAnnotation,
         SideloadedResults (to_json/from_json/__init__ checks/build_location/start/end);
-        sideloader.regenerate_previous_results (with the D53 repair: requested annotations are compared)
+        sideloader.regenerate_previous_results (with the D56 repair: requested annotations are compared)
     common/hmmer.py : HmmerHit.__post_init__/to_json/from_json, HmmerResults.to_json/from_json/refilter ;
         detection/{full,cluster}_hmmer regenerate_previous_results
     modules/tta/tta.py : TTAResults.to_json/from_json/new_feature_from_location ; tta.run_on_record
@@ -826,7 +826,7 @@ def fromJson (ctx : Ctx) : J → Outcome Sideloaded
             let protos ← mapO (ProtoAnn.fromJson ctx.origin) pj
             pure ⟨ctx.recordId, subs, protos⟩
   | _ => .refuse .type
-/-- `regenerate_previous_results` (with the D53 repair).  `requested` is what
+/-- `regenerate_previous_results` (with the D56 repair).  `requested` is what
     `load_single_record_annotations` yields for the current `--sideload*` options, `none` when the
     current run requests no sideloading (`is_enabled(options)` false): annotations requested for
     this run must be the ones being reused, otherwise the run stops. -/
